@@ -41,12 +41,21 @@ VARIABLES calls,      \* sequence of [m, o] made so far
 vars == <<calls, handler, seen>>
 Init == calls = <<>> /\ handler = <<>> /\ seen = <<>>
 Call(m, o) == /\ Len(calls) < MaxCalls /\ Possible(m, o)
-              /\ calls' = Append(calls, [m |-> m, o |-> o])
+              /\ calls' = Append(calls, [m |-> m, o |-> o, fault |-> "none"])
               /\ handler' = Append(handler, m)                       \* exactly one invocation
               /\ seen' = Append(seen, Observes(m, o))
-Next == \E m \in Methods, o \in Outcomes : Call(m, o)
+\* the environment drops the connection after the server has processed the request and before any byte of the response is
+\* on the wire (HTTP: the carrier of a request is its own connection): the request did arrive, so the handler ran - once; the
+\* caller observes a transport error, whatever the outcome was, and nobody sends the request a second time
+Faults == {"none", "drop-after-handler"}
+ObservesF(m, o, f) == IF f = "none" THEN Observes(m, o) ELSE "transport-error"
+CallDropped(m, o) == /\ Len(calls) < MaxCalls /\ Possible(m, o)
+                     /\ calls' = Append(calls, [m |-> m, o |-> o, fault |-> "drop-after-handler"])
+                     /\ handler' = Append(handler, m)                \* still exactly one invocation
+                     /\ seen' = Append(seen, "transport-error")
+Next == \E m \in Methods, o \in Outcomes : Call(m, o) \/ CallDropped(m, o)
 Spec == Init /\ [][Next]_vars
 OncePerCall == Len(handler) = Len(calls) /\ \A i \in 1..Len(calls) : handler[i] = calls[i].m
-Faithful == \A i \in 1..Len(calls) : seen[i] = Observes(calls[i].m, calls[i].o)
-InheritedSame == \A i \in 1..Len(calls) : Inherited(calls[i].m) => seen[i] = Observes(calls[i].m, calls[i].o)
+Faithful == \A i \in 1..Len(calls) : seen[i] = ObservesF(calls[i].m, calls[i].o, calls[i].fault)
+InheritedSame == \A i \in 1..Len(calls) : Inherited(calls[i].m) => seen[i] = ObservesF(calls[i].m, calls[i].o, calls[i].fault)
 =============================================================================
